@@ -181,66 +181,57 @@ Proof.
   destruct (psetitem c p k v) as [p1 [u|ex]]; [apply IH|reflexivity].
 Qed.
 
+Ltac keys_loop c f :=
+  match goal with |- context [loop_keys ?r ?x f ?s] =>
+    let LK := fresh "LK" in let env := fresh "env" in let E := fresh "E" in
+    pose proof (fun HB HL => loop_keys_spec c r x f HB f s HL) as LK;
+    destruct LK as [env E];
+    [ (let s0 := fresh "s" in let k0 := fresh "k" in let w0 := fresh "w" in let G := fresh "G" in
+       intros s0 k0 w0 G; cbn; rewrite G; unfold of_er; cbn;
+       destruct (psetitem c (ms_cache s0) k0 w0) as [? [?|?]]; eexists; reflexivity)
+    | (intros; apply d_get_in_nd; assumption)
+    | rewrite E; clear E ]
+  end.
+
+Ltac pairs_loop c :=
+  match goal with |- context [loop_pairs ?r ?x ?y ?l ?s] =>
+    let LP := fresh "LP" in let env := fresh "env" in let E := fresh "E" in
+    pose proof (fun HB => loop_pairs_spec c r x y HB l s) as LP;
+    destruct LP as [env E];
+    [ (let s0 := fresh "s" in let k0 := fresh "k" in let w0 := fresh "w" in
+       intros s0 k0 w0; cbn; destruct (psetitem c (ms_cache s0) k0 w0) as [? [?|?]]; eexists; reflexivity)
+    | rewrite E; clear E ]
+  end.
+
 Lemma genm_update_seq_ok c p e f :
   genm_present = true -> NoDup (keys f) ->
   call_method c genm_update (params 0 MNone MNone (MSeq e) (MMap f)) p = of_step (pstep1 c p (Update e f)).
 Proof.
-  obl ltac:(intro NDf; unfold call_method, genm_update, of_step; simpl pstep1; rewrite psetitems_app).
-  cbn -[loop_pairs loop_keys psetitems].
-  match goal with |- context [loop_pairs ?r ?x ?y ?l ?s] =>
-    pose proof (fun HB => loop_pairs_spec c r x y HB l s) as LP end.
-  destruct LP as [env1 E1].
-  { intros s k w. cbn. destruct (psetitem c (ms_cache s) k w) as [p1 [u|ex]]; eexists; reflexivity. }
-  rewrite E1. clear E1. cbn -[loop_keys psetitems].
-  destruct (psetitems c p e) as [p1 [u|ex]]; cbn -[loop_keys psetitems]; [|reflexivity].
-  match goal with |- context [loop_keys ?r ?x ?l ?s] =>
-    pose proof (fun HB HL => loop_keys_spec c r x f HB l s HL) as LK end.
-  destruct LK as [env2 E2].
-  { intros s k w G. cbn. rewrite G. unfold of_er. cbn.
-    destruct (psetitem c (ms_cache s) k w) as [p2 [u2|ex]]; eexists; reflexivity. }
-  { intros k w H. now apply d_get_in_nd. }
-  rewrite E2. clear E2. cbn -[psetitems].
-  destruct (psetitems c p1 f) as [p2 [u2|ex]]; reflexivity.
+  obl ltac:(intro NDf; unfold call_method, genm_update, of_step; simpl pstep1; rewrite psetitems_app;
+            cbn -[loop_pairs loop_keys psetitems]; pairs_loop c; cbn -[loop_keys psetitems];
+            destruct (psetitems c p e) as [p1 [u|ex]]; cbn -[loop_keys psetitems];
+            [ keys_loop c f; cbn -[psetitems]; destruct (psetitems c p1 f) as [? [?|?]]; reflexivity
+            | reflexivity ]).
 Qed.
 
 Lemma genm_update_map_ok c p e f :
   genm_present = true -> NoDup (keys e) -> NoDup (keys f) ->
   call_method c genm_update (params 0 MNone MNone (MMap e) (MMap f)) p = of_step (pstep1 c p (Update e f)).
 Proof.
-  obl ltac:(intros NDe NDf; unfold call_method, genm_update, of_step; simpl pstep1; rewrite psetitems_app).
-  cbn -[loop_pairs loop_keys psetitems].
-  match goal with |- context [loop_keys ?r ?x e ?s] =>
-    pose proof (fun HB HL => loop_keys_spec c r x e HB e s HL) as LK end.
-  destruct LK as [env1 E1].
-  { intros s k w G. cbn. rewrite G. unfold of_er. cbn.
-    destruct (psetitem c (ms_cache s) k w) as [p2 [u2|ex]]; eexists; reflexivity. }
-  { intros k w H. now apply d_get_in_nd. }
-  rewrite E1. clear E1. cbn -[loop_keys psetitems].
-  destruct (psetitems c p e) as [p1 [u|ex]]; cbn -[loop_keys psetitems]; [|reflexivity].
-  match goal with |- context [loop_keys ?r ?x f ?s] =>
-    pose proof (fun HB HL => loop_keys_spec c r x f HB f s HL) as LK end.
-  destruct LK as [env2 E2].
-  { intros s k w G. cbn. rewrite G. unfold of_er. cbn.
-    destruct (psetitem c (ms_cache s) k w) as [p2 [u2|ex]]; eexists; reflexivity. }
-  { intros k w H. now apply d_get_in_nd. }
-  rewrite E2. clear E2. cbn -[psetitems].
-  destruct (psetitems c p1 f) as [p2 [u2|ex]]; reflexivity.
+  obl ltac:(intros NDe NDf; unfold call_method, genm_update, of_step; simpl pstep1; rewrite psetitems_app;
+            cbn -[loop_pairs loop_keys psetitems]; keys_loop c e; cbn -[loop_keys psetitems];
+            destruct (psetitems c p e) as [p1 [u|ex]]; cbn -[loop_keys psetitems];
+            [ keys_loop c f; cbn -[psetitems]; destruct (psetitems c p1 f) as [? [?|?]]; reflexivity
+            | reflexivity ]).
 Qed.
 
 Lemma genm_update_self_ok c p f :
   genm_present = true -> NoDup (keys f) ->
   call_method c genm_update (params 0 MNone MNone MSelf (MMap f)) p = of_step (pstep1 c p (UpdateSelf f)).
 Proof.
-  obl ltac:(intros NDf; unfold call_method, genm_update, of_step; simpl pstep1).
-  cbn -[loop_keys psetitems].
-  match goal with |- context [loop_keys ?r ?x f ?s] =>
-    pose proof (fun HB HL => loop_keys_spec c r x f HB f s HL) as LK end.
-  destruct LK as [env2 E2].
-  { intros s k w G. cbn. rewrite G. unfold of_er. cbn.
-    destruct (psetitem c (ms_cache s) k w) as [p2 [u2|ex]]; eexists; reflexivity. }
-  { intros k w H. now apply d_get_in_nd. }
-  rewrite E2. clear E2. cbn -[psetitems].
-  destruct (psetitems c p f) as [p2 [u2|ex]]; reflexivity.
+  obl ltac:(intros NDf; unfold call_method, genm_update, of_step; simpl pstep1;
+            cbn -[loop_keys psetitems]; keys_loop c f; cbn -[psetitems];
+            destruct (psetitems c p f) as [? [?|?]]; reflexivity).
 Qed.
 
 (* the two side conditions of the __getitem__ obligations hold for every represented ring *)
